@@ -455,3 +455,60 @@ def run_outputs(run, P):
                                   'leaves the value of the earlier message (stale payload pointer, ...)' % (fn, ', pdu->'.join(miss)), ctx.path())
             return None
         solve(f, Env({'w': frozenset()}), on_event, None, keys, R, key_fn=lambda e: e.ts['w'], max_envs=512)
+
+
+# ---------------------------------------------------------------------------------------------------------------
+VERDICT_UNITS = ('coap_pdu.c', 'coap_option.c', 'coap_net.c')
+
+
+def run_verdict(run, P, units=VERDICT_UNITS):
+    """R-PARSE-GATE (verdict): a function of the decoding units that returns a local flag initialised to the accepting value 1 collects its
+    verdict over several checks (over the options of a message, over the rows of a table).  Such a flag only ever goes down: on no path
+    is it assigned anything but the constant 0 while it is already known to be 0 -- `good = check(next option)` inside the loop lets a later
+    well-formed option wipe out the rejection of an earlier one.  (`ok = check(); if (!ok) break;` never reaches the assignment with the
+    flag at 0 and is fine.)"""
+    from core.prog import strip, walk, ap, short, const_int
+    from core.psts import Env, solve, relevance, apply_generic
+    run.rule('R-PARSE-GATE')
+    nflags = 0
+    for f in sorted(P.lib_funcs(), key=lambda f: f['name']):
+        if units and f['unit'] not in units:
+            continue
+        inits = {}
+        for b, ev in P.events(f):
+            for d in ev['e'].get('d') or ():
+                if d.get('init') is not None and const_int(d['init']) == 1:
+                    inits['v%d' % d['id']] = d['n']
+        flags = set()
+        for b, ev in P.events(f):
+            t = ev['e']
+            if t.get('k') == 'ret' and t.get('e') is not None and ap(t['e']) in inits:
+                flags.add(ap(t['e']))
+        # flags that are ever assigned the constant 0: verdicts (a returned length that starts at 1 is not one)
+        flags = set(v for v in flags if any(ev['e'].get('k') == 'asg' and ap(ev['e']['l']) == v and ev['e'].get('op') == '=' and const_int(ev['e']['r']) == 0
+                                            for b, ev in P.events(f)))
+        for v in sorted(flags):
+            name = f['name']
+            nflags += 1
+            run.instance('R-PARSE-GATE', '%s: verdict flag `%s` only goes down' % (name, inits[v]))
+            asgs = [ev for b, ev in P.events(f) if ev['e'].get('k') == 'asg' and ap(ev['e']['l']) == v]
+
+            def is_rule_event(ev):
+                return any(ev is a for a in asgs)
+            keys, R = relevance(f, is_rule_event, {v})
+            R = set(R) | {v}
+
+            def on_event(ev, env, ctx, v=v, name=name):
+                t = ev['e']
+                if any(ev is a for a in asgs):
+                    lo, hi, ex = env.intf(v)
+                    lowered = (lo == hi == 0)
+                    keeps = t.get('op') == '=' and const_int(t['r']) == 0
+                    run.oblige('R-PARSE-GATE', not (lowered and not keeps), '%s:verdict-monotone' % name)
+                    if lowered and not keeps:
+                        run.violation('R-PARSE-GATE', name, ev['loc'], 'verdict-raised-again:%s' % inits[v],
+                                      'the verdict flag `%s` is assigned %s on a path on which it is already 0: a later check overwrites the rejection an earlier one '
+                                      'recorded, and a message with a malformed part followed by a well-formed one is accepted' % (inits[v], short(t['r'])[:50]), ctx.path())
+                return None
+            solve(f, Env(), on_event, None, keys, R, key_fn=lambda e, v=v: e.intf(v)[:2])
+    run.require(nflags >= (3 if run.cfg == 'base' else 2) or run.fixture_mode, 'R-PARSE-GATE(verdict): fewer than 3 returned accept flags found in the decoding units')
